@@ -35,7 +35,8 @@ def gen(rng, k, dll=None, big=False):
     sc = dict(kind='tpconf', dll=dll, role=role, bam=bam, size=size, seed=rng.getrandbits(30), max_cmdt=max_cmdt, cmdt_iv=cmdt_iv, bam_iv=bam_iv,
               dp=dp, pf=pf, ps=ps, prio=rng.randint(0, 7), plan=plan, lat=[rng.choice([1, 500, 5000])], jit=[rng.choice([1, 1000])])
     biv = bam_iv if bam_iv is not None else (0.05 if not fd else 0.01)
-    nwin = (n + min(windows) - 1) // max(1, min(windows))
+    wmin = max(1, min(min(windows), max_cmdt or 255, plan['limit']))     # the RTS limit (either side's) clips every window
+    nwin = (n + wmin - 1) // wmin
     dur = n * (max(int(biv * 1e6), plan['dt_gap'], int((cmdt_iv or 0) * 1e6)) + 12000) \
         + nwin * (plan['reply_delay'] + (max(holds) + 1) * plan['hold_gap'] + 20000) + 5_000_000
     sc['horizon'] = min(dur, 400_000_000)
